@@ -121,5 +121,22 @@ def run(ctx):
     from .c08 import r3_reset
     for fam in SA:
         r3_reset(ctx, fam)
+    ctx.rule('C13.R1', 'the responsible handler: client resolver table over '
+             'all registry states; the resolver depends on the registry '
+             'alone (shared rule)', floor=40)
+    ctx.rule('C13.R2', 'client namespace-handler table (shared rule)',
+             floor=4)
+    ctx.rule('C13.R3', 'client _trigger_event passes the resolved arguments '
+             'on (shared rule)', floor=10)
+    from . import c13
+    ctx._cur = 'C13.R1'
+    c13.table_rule(ctx, 'BaseClient', '_get_event_handler', c13.event_states,
+                   c13.spec_event, c13.names_event)
+    ctx._cur = 'C13.R2'
+    c13.table_rule(ctx, 'BaseClient', '_get_namespace_handler',
+                   c13.ns_states, c13.spec_ns, c13.names_ns)
+    ctx._cur = 'C13.R3'
+    for cname in ('Client', 'AsyncClient'):
+        c13.r3_trigger(ctx, cname, False)
     ctx.assume('exactly-once over arbitrary packet sequences is reduced to '
                'one dispatch / one ACK per packet path')
